@@ -162,6 +162,28 @@ PROPS["C06"] = {
     },
 }
 
+PROPS["C04"] = {
+    "level": "fault_enumeration",
+    "exhaustive": True,
+    "cells": 120,
+    "rule": ("three finite tables enumerated by run index (120 cells): (a) whole-system matrix {carrier: tcp, unix, tcp+tls, unix+tls, ws, wss, stdio, stdio+tls, udp, udp+password} x {server has a "
+             "certificate} x {client -s} x {client -k} with a recording tap on every carrier link and datagram; (b) real client, with and without -s, against a scripted server deviating at exactly one "
+             "handshake step {capability omitted / altered / duplicated, 101 then plaintext multiplexer, 101 then garbage, upgrade answered 200 / 403 / 503, announce answered 500, TLS alert, "
+             "101 without headers, honest plaintext} over tcp and unix; (c) real +tls / https endpoint against a scripted client speaking plaintext in 4 ways; delivery segmentation is sampled; "
+             "non-trivial = the cell's oracle was evaluated; distinct = cells x schedule shapes"),
+    "probes": ["sessions_established", "sessions_refused", "plaintext_session_observed", "deviation_refused", "plaintext_client_refused"],
+    "technique": "deterministic simulation: enumerated security matrix and enumerated byzantine peer deviations, wire-tap oracle (payload windows never in clear on a protected session)",
+    "level_text": ("Fault enumeration. Payloads are high-entropy PRF streams; six 24-byte windows of each are searched in everything that crossed the carrier. On a session that must be protected "
+                   "(client -s, encrypted carrier, or StartTLS on offer) no window may appear; with StartTLS on offer an established session must report tls on the client and have been upgraded on "
+                   "the server; a client started with -s must neither open a logical stream nor emit payload after any server deviation, and must disconnect the local application; a TLS endpoint "
+                   "must never let a plaintext client reach a target. Control cells (legitimately plaintext sessions) must show the payload on the wire, which validates the observer."),
+    "level_note": "Server-side StartTLS state is observed through the server's own log line; client-side state through ClientConnection.Secure()/SecurityTech() (reached with an injected accessor in the scratch copy only). The scripted server runs real smux + multistream after its fake handshake so that a wrongly trusting client would really send data.",
+    "tiers": {
+        "quick": {"runs": 120 * 5, "chunk": 120, "shrink_s": 30},
+        "thorough": {"runs": 120 * 100, "chunk": 240, "shrink_s": 90},
+    },
+}
+
 PENDING = "check under construction in this round; see DESIGN.md section 5 for the planned simulation"
 NOT_APPLICABLE = [
     {"property_id": "C08", "reason": "pure function of one byte string (codec Encode/Decode): no schedule, clock, fault or second party for a simulator to control; see DESIGN.md section 6"},
